@@ -633,3 +633,66 @@ func abs(x int) int {
 	}
 	return x
 }
+
+// FullDiagonalFamily enumerates positions in which all eight squares of a long diagonal are
+// occupied: a white bishop or queen on each of its squares in turn, knights of either colour (every
+// colouring) on the other seven, the kings on the first pair of squares off the diagonal that keeps
+// the position legal; both sides to move. Line tables indexed by occupancy meet their last entry
+// here (every square of the line occupied), which positions with few pieces never reach.
+func FullDiagonalFamily(emit func(p *ref.Pos)) {
+	queenDirs := [][2]int{{1, 0}, {-1, 0}, {0, 1}, {0, -1}, {1, 1}, {1, -1}, {-1, 1}, {-1, -1}}
+	for _, anti := range []bool{false, true} {
+		var line []int
+		for i := 0; i < 8; i++ {
+			f := i
+			if anti {
+				f = 7 - i
+			}
+			line = append(line, i*8+f)
+		}
+		for si, s := range line {
+			for _, x := range []int8{ref.B, ref.Q} {
+				for mask := 0; mask < 128; mask++ {
+					base := &ref.Pos{EP: -1, White: true}
+					k := 0
+					for i, sq := range line {
+						if i == si {
+							base.Sq[sq] = x
+							continue
+						}
+						if mask&(1<<k) != 0 {
+							base.Sq[sq] = ref.N
+						} else {
+							base.Sq[sq] = -ref.N
+						}
+						k++
+					}
+					placed := false
+					for wk := 0; wk < 64 && !placed; wk++ {
+						if base.Sq[wk] != 0 {
+							continue
+						}
+						for bk := 63; bk >= 0 && !placed; bk-- {
+							if base.Sq[bk] != 0 || bk == wk || (x == ref.Q && onRay(s, bk, queenDirs)) || (abs(bk%8-wk%8) <= 1 && abs(bk/8-wk/8) <= 1) {
+								continue
+							}
+							p := *base
+							p.Sq[wk], p.Sq[bk] = ref.K, -ref.K
+							if p.InCheck(true) || p.InCheck(false) {
+								continue
+							}
+							placed = true
+							for _, white := range []bool{true, false} {
+								q := p
+								q.White = white
+								if Valid(&q) {
+									emit(&q)
+								}
+							}
+						}
+					}
+				}
+			}
+		}
+	}
+}
